@@ -12,7 +12,7 @@ CONSTANTS
  AllowWith = TRUE
  AllowVars = FALSE
  MaxUses = 1
- OldWith = TRUE
+ OldWith = FALSE
  RestoreOwn = FALSE
-INVARIANTS CaptureFree
+INVARIANTS FlagAsMeant StackDepth CaptureFree NoCollision PublicUnchanged NoReserved WithOwn WithCross Emit
 CHECK_DEADLOCK FALSE
